@@ -7,3 +7,18 @@
 //@type src/ruleset/rule.rs struct Rule
 //@type src/ruleset/mod.rs struct RuleSet
 //@type src/expr/eval/context.rs struct EvalContext
+
+// derived PartialEq / Clone on Expr (ASSUMED structural; only their existence matters to the verified code today)
+pub uninterp spec fn expr_eq(a: Expr, b: Expr) -> bool;
+impl vstd::std_specs::cmp::PartialEqSpecImpl for Expr {
+    open spec fn obeys_eq_spec() -> bool { true }
+    open spec fn eq_spec(&self, other: &Expr) -> bool { expr_eq(*self, *other) }
+}
+impl PartialEq for Expr {
+    #[verifier::external_body]
+    fn eq(&self, other: &Expr) -> bool { unimplemented!() }
+}
+impl Clone for Expr {
+    #[verifier::external_body]
+    fn clone(&self) -> (r: Self) ensures r == *self { unimplemented!() }
+}
